@@ -260,18 +260,11 @@ func typeCode(t types.Type) int {
 }
 
 func fnKey(fn *ssa.Function) string {
-	// Parent-qualified, package-relative name, e.g. (*ReplayCache).Add, timedCopy$1
+	// package-short-qualified, parent-qualified name, e.g. service.(*ReplayCache).Add, service.timedCopy$1
 	if fn == nil {
 		return "<nil>"
 	}
-	root := fn
-	for root.Parent() != nil {
-		root = root.Parent()
-	}
-	if root.Pkg == nil {
-		return fn.String()
-	}
-	return fn.RelString(root.Pkg.Pkg)
+	return qualFnName(fn)
 }
 
 func pkgShort(fn *ssa.Function) string {
